@@ -207,7 +207,7 @@ func forEachSeq(alpha []sigEntry, maxLen int, fn func([]sigEntry)) {
 }
 
 func c02(r *ev.Reporter, _ []string) {
-	r.Rule = "certificates built from signature descriptors {valid(i), foreign-message(i), i's signature labelled j, unknown signer, empty}: all descriptor sequences up to length q+1 for n<=4 (Multi schemes) / all distinct-label subsets (BLS), x claimed view/hash {true, relabelled}; for larger n all honest subsets of size q-1,q,n plus all single and double structural mutations; QC, TC, AggQC (+high QC) and proposals via VerifyAnyQC; verified by a replica that did not build it, cold and warm cache; oracle = signatures genuine by construction; distinct = distinct (config,certificate) cases"
+	r.Rule = "certificates built from signature descriptors {valid(i), foreign-message(i), i's signature labelled j, unknown signer, empty}: all descriptor sequences up to length q+1 for n<=4 (Multi schemes) / all distinct-label subsets (BLS), x claimed view/hash {true, relabelled}; for larger n all honest subsets of size q-1,q,n plus all single and double structural mutations; QC, TC, AggQC (+high QC) and proposals via VerifyAnyQC; verified by a replica that did not build it, cold and warm cache; BLS rogue-key registration (Byzantine replica registers x*G minus the other keys with every kind of announced proof of possession, forged same-message aggregate naming all replicas); oracle = signatures genuine by construction; distinct = distinct (config,certificate) cases"
 	type cfg struct {
 		scheme string
 		n      int
@@ -242,6 +242,7 @@ func c02(r *ev.Reporter, _ []string) {
 		// accumulate
 		tot.add(r, st)
 	})
+	r.Extra["bls_rogue_key_registration_cases"] = c02Rogue(r)
 	r.Extra["accepted"] = tot.accepted
 	r.Extra["rejected"] = tot.rejected
 	r.Extra["panics_seen_treated_as_reject_reported_under_C10"] = tot.panics
